@@ -66,6 +66,7 @@ type udplObs struct {
 	RelayBatch, RecvBatch, SendCap          int
 	EffNATTimeout                           string
 	EffRelayBatch, EffRecvBatch, EffSendCap string
+	EffBatchMode                            string
 }
 
 type srvObs struct {
@@ -86,6 +87,8 @@ type cliObs struct {
 	PadFn, PadName                              string
 	TFO, TFOFallback, Segmented                 bool
 	MTU                                         int
+	UseTLS                                      bool
+	ServerName, RootCAs, CertList               string // HTTP proxy client, after Manager() applied the defaults
 }
 
 type probeObs struct {
@@ -158,7 +161,7 @@ func parentSubst(s, dir string, nports int) string {
 // loadText writes the files and the configuration into a fresh directory and loads it the way
 // cmd/shadowsocks-go does. migrate additionally runs Config.Migrate and a save/load round trip
 // before Manager (the -fmtConf path).
-func loadText(cfgText string, files map[string]string, nports int, migrate bool) *loaded {
+func loadText(cfgText string, files map[string]string, nports int, migrate bool, logLevel ...string) *loaded {
 	l := &loaded{}
 	dir, err := os.MkdirTemp(workDir(), "c18-load-")
 	if err != nil {
@@ -173,6 +176,10 @@ func loadText(cfgText string, files map[string]string, nports int, migrate bool)
 		panic(err)
 	}
 	logger := zap.NewNop()
+	if len(logLevel) > 0 && logLevel[0] != "" {
+		// the load-time log statements (deprecation and taint warnings) run with real field values
+		logger, _ = newLogger(logLevel[0], "console-nocolor")
+	}
 	if migrate {
 		var sc service.Config
 		if err := jsoncfg.Load(path, &sc); err != nil {
@@ -268,6 +275,9 @@ func observe(cfg *service.Config) obs {
 				uo.EffRelayBatch = privField(eff, "relayBatchSize")
 				uo.EffRecvBatch = privField(eff, "serverRecvBatchSize")
 				uo.EffSendCap = privField(eff, "sendChannelCapacity")
+				if uo.EffBatchMode = privField(eff, "batchMode"); uo.EffBatchMode == "" {
+					uo.EffBatchMode = "sendmmsg" // "": platform default; "sendmmsg" is the default on Linux (doc comment of UDPPerfConfig.BatchMode)
+				}
 			} else {
 				uo.EffNATTimeout = "error: " + err.Error()
 			}
@@ -281,6 +291,9 @@ func observe(cfg *service.Config) obs {
 			TFO: cc.DialerTFO, TFOFallback: cc.TCPFastOpenFallback, Segmented: cc.AllowSegmentedFixedLengthHeader, MTU: cc.MTU}
 		if strings.HasPrefix(cc.Protocol, "2022-") {
 			co.PadFn, co.PadName = paddingFnName(cc.PaddingPolicy.Policy()), cc.PaddingPolicy.Name()
+		}
+		if cc.Protocol == "http" {
+			co.UseTLS, co.ServerName, co.RootCAs, co.CertList = cc.HTTP.UseTLS, cc.HTTP.ServerName, cc.HTTP.RootCAs, cc.HTTP.CertList
 		}
 		o.Clients = append(o.Clients, co)
 	}
@@ -407,6 +420,9 @@ func (w *world) documented(o obs) []string {
 				if _, ok := l.f["pathMTUDiscovery"]; ok {
 					chk(lp+".pathMTUDiscovery", uo.PMTUD, l.f.effective("udpl", "pathMTUDiscovery"))
 				}
+				if _, ok := l.f["batchMode"]; ok && uo.EffBatchMode != "unobservable" {
+					chk(lp+".batchMode", uo.EffBatchMode, l.f.effective("udpl", "batchMode"))
+				}
 			}
 		} else {
 			d = append(d, fmt.Sprintf("%s: %d udp listeners configured, %d effective", p, len(s.udp), len(so.UDP)))
@@ -423,6 +439,14 @@ func (w *world) documented(o obs) []string {
 			if keyLen(c.proto) > 0 {
 				chk(p+".paddingPolicy.Policy()", co.PadFn, c.f.effective("client", "paddingPolicy"))
 				chk(p+".paddingPolicy.Name()", co.PadName, c.f.effective("client", "paddingPolicy"))
+			}
+			if c.proto == "http" && c.tls != nil && c.tls.use {
+				// "ServerName is the server name used for TLS. If empty, it is inferred from the address."
+				want := "127.0.0.1"
+				if c.tls.serverName != nil && *c.tls.serverName != "" {
+					want = *c.tls.serverName
+				}
+				chk(p+".http.serverName", co.ServerName, want)
 			}
 		}
 	} else if len(o.Clients) != 1 || o.Clients[0].Name != "direct" || o.Clients[0].Protocol != "direct" {
